@@ -128,8 +128,12 @@ class LtlAstParserVisitor(LtlParserVisitor):
         try:
             float(const_value)
         except ValueError:
-            # hexadecimal or binary integer literal
-            const_value = str(int(const_value, 0))
+            # hexadecimal or binary integer literal (beyond the largest float it is inf, like 1e400)
+            number = int(const_value, 0)
+            try:
+                const_value = str(number)
+            except ValueError:
+                const_value = 'inf'
 
         self.declare_const(const_name, const_type, const_value)
 
@@ -228,8 +232,11 @@ class LtlAstParserVisitor(LtlParserVisitor):
         try:
             val = float(text)
         except ValueError:
-            # hexadecimal or binary integer literal
-            val = float(int(text, 0))
+            # hexadecimal or binary integer literal (beyond the largest float it is inf, like 1e400)
+            try:
+                val = float(int(text, 0))
+            except OverflowError:
+                val = float('inf')
         node = Constant(val)
         self.phi_name_to_node_dict[node.name] = node
         return node
@@ -392,8 +399,9 @@ class LtlAstParserVisitor(LtlParserVisitor):
                 raise RTAMTException('{0} refers to undeclared variable {1} of unknown type'.format(id, id_head))
             else:
                 var = float()
-                self.var_object_dict[id] = var
-                self.add_var(id)
+                # (an identifier may end with a dot: the variable is what precedes it)
+                self.var_object_dict[id_head] = var
+                self.add_var(id_head)
                 if not implicit:
                     logging.warning('The variable {} is not explicitly declared. It is implicitly declared as a '
                                     'variable of type float'.format(id))
